@@ -1,14 +1,15 @@
 ------------------------------ MODULE EvmTx_MC ------------------------------
 EXTENDS EvmTx, Json
 SendersV == {"S"}
-KindsV == [c \in {"FWD", "SDO", "SDS", "STO", "REV", "LOOP"} |->
-             CASE c = "FWD" -> "fwd" [] c = "SDO" -> "sdo" [] c = "SDS" -> "sds" [] c = "STO" -> "sto" [] c = "REV" -> "rev" [] OTHER -> "loop"]
+KindsV == [c \in {"FWD", "SDO", "SDS", "STO", "REV", "LOOP", "DD2", "DD0", "DDS", "DRD", "RW"} |->
+             CASE c = "FWD" -> "fwd" [] c = "SDO" -> "sdo" [] c = "SDS" -> "sds" [] c = "STO" -> "sto" [] c = "REV" -> "rev"
+               [] c = "DD2" -> "dd2" [] c = "DD0" -> "dd0" [] c = "DDS" -> "dds" [] c = "DRD" -> "drd" [] c = "RW" -> "rw" [] OTHER -> "loop"]
 GLV == {0, 1, 3}
 GPV == {0, 1, 2}
 VV == {0, 1}
 NDV == {-1, 1}
 AllV == SendersV \cup {"R", "B", "FEE", "NEW"} \cup DOMAIN KindsV
-BalV == [a \in AllV |-> IF a = "S" THEN 4 ELSE IF a \in {"SDS", "SDO"} THEN 1 ELSE 0]
+BalV == [a \in AllV |-> IF a = "S" THEN 4 ELSE IF a \in {"SDS", "SDO", "DRD"} THEN 1 ELSE IF a \in {"DD2", "DDS"} THEN 2 ELSE 0]
 NonceV == [s \in SendersV |-> 0]
 Edge == PrintT(<<"EDGE", ToJson([from |-> State, act |-> act', to |-> State'])>>)
 InitOut == (TLCGet("level") = 1) => PrintT(<<"INIT", ToJson(State)>>)
